@@ -22,6 +22,8 @@ import (
 type Track struct {
 	Name string `json:"name"`
 	Kind string `json:"kind"`
+	// Ignore: the per-representation configuration marks the track as ignored: its uploads are answered 200 and leave no trace.
+	Ignore bool `json:"ignore,omitempty"`
 }
 
 type Channel struct {
@@ -33,6 +35,13 @@ type Channel struct {
 	// so for such a channel only the order-independent facts are judged (every upload accepted, one channel object,
 	// every track registered, no race).
 	Shifted bool `json:"shifted,omitempty"`
+	// Ignore: the channel configuration drops the channel (uploads answered 200, nothing registered or stored).
+	Ignore bool `json:"ignore,omitempty"`
+	// Unlisted: the channel does not appear in the configuration file (defaults apply, incl. the default credentials).
+	Unlisted bool `json:"unlisted,omitempty"`
+	// Intruders: uploads without / with wrong credentials arrive together with the legitimate ones (channels with credentials only):
+	// each is answered 401 and changes nothing.
+	Intruders bool `json:"intruders,omitempty"`
 }
 
 type Case struct {
@@ -42,13 +51,35 @@ type Case struct {
 	RepCfg   bool      `json:"rep_config"`
 	Repeats  int       `json:"repeats"`
 	ReInit   bool      `json:"resend_inits,omitempty"`
+	// DefaultAuth: the configuration carries default credentials, which apply to every channel without credentials of its own.
+	DefaultAuth bool `json:"default_auth,omitempty"`
+}
+
+func (c Case) needsAuth(ch Channel) bool { return c.DefaultAuth || (ch.Auth && !ch.Unlisted) }
+
+// live lists the tracks of a channel that the receiver is to register and store.
+func live(ch Channel) []Track {
+	var out []Track
+	if ch.Ignore && !ch.Unlisted {
+		return nil
+	}
+	for _, tr := range ch.Tracks {
+		if !tr.Ignore || ch.Unlisted {
+			out = append(out, tr)
+		}
+	}
+	return out
 }
 
 func genCase(t *rapid.T) Case {
 	c := Case{M: rapid.IntRange(2, 6).Draw(t, "M"), Streams: rapid.Bool().Draw(t, "streams"), RepCfg: rapid.Bool().Draw(t, "repcfg"), Repeats: rapid.IntRange(2, 6).Draw(t, "repeats"), ReInit: rapid.IntRange(0, 2).Draw(t, "reinit") == 0}
+	c.DefaultAuth = rapid.IntRange(0, 3).Draw(t, "defaultauth") == 0
 	nch := rapid.IntRange(1, 4).Draw(t, "nch")
 	for ci := 0; ci < nch; ci++ {
 		ch := Channel{Name: fmt.Sprintf("ch%d", ci), Auth: rapid.Bool().Draw(t, "auth"), Shifted: rapid.IntRange(0, 3).Draw(t, "shifted") == 0}
+		ch.Ignore = rapid.IntRange(0, 7).Draw(t, "ch-ignore") == 0
+		ch.Unlisted = rapid.IntRange(0, 5).Draw(t, "unlisted") == 0
+		ch.Intruders = rapid.Bool().Draw(t, "intruders")
 		nt := rapid.IntRange(2, 8).Draw(t, "ntracks")
 		for ti := 0; ti < nt; ti++ {
 			kind := "video"
@@ -60,7 +91,7 @@ func genCase(t *rapid.T) Case {
 			case ti%3 == 2:
 				kind = "text"
 			}
-			ch.Tracks = append(ch.Tracks, Track{Name: fmt.Sprintf("%s-%d", kind, ti), Kind: kind})
+			ch.Tracks = append(ch.Tracks, Track{Name: fmt.Sprintf("%s-%d", kind, ti), Kind: kind, Ignore: ti > 0 && rapid.IntRange(0, 5).Draw(t, "tr-ignore") == 0})
 		}
 		c.Channels = append(c.Channels, ch)
 	}
@@ -92,11 +123,13 @@ func normalMPD(path string) (map[string]string, error) {
 			return nil, err
 		}
 		var sb strings.Builder
-		fmt.Fprintf(&sb, "%s ts=%d:", as.Kind(), as.Tmpl.TS())
+		fmt.Fprintf(&sb, "%s lang=%q ts=%d:", as.Kind(), as.Lang, as.Tmpl.TS())
 		for _, d := range decls {
 			fmt.Fprintf(&sb, " %d(%d,%d)", d.Nr, d.T, d.D)
 		}
 		for _, r := range as.Reps {
+			// @bandwidth is left out: it is estimated once, from whatever segments each track has delivered when the master
+			// track completes its second segment, so it legitimately depends on the order of arrival (observation O10)
 			out[r.ID] = sb.String()
 		}
 	}
@@ -120,14 +153,23 @@ type upload struct {
 
 func (c Case) config() *rxapp.Config {
 	cfg := &rxapp.Config{}
+	if c.DefaultAuth {
+		cfg.DefaultUser, cfg.DefaultPswd = "user", "secret"
+	}
 	for _, ch := range c.Channels {
-		cc := rxapp.ChannelConfig{Name: ch.Name, TimeShiftBufferDepthS: 60}
+		if ch.Unlisted {
+			continue
+		}
+		cc := rxapp.ChannelConfig{Name: ch.Name, TimeShiftBufferDepthS: 60, Ignore: ch.Ignore}
 		if ch.Auth {
 			cc.AuthUser, cc.AuthPswd = "user", "secret"
 		}
-		if c.RepCfg {
-			for _, tr := range ch.Tracks {
-				cc.Reps = append(cc.Reps, rxapp.RepresentationConfig{Name: tr.Name, Language: "en", Bitrate: 12345})
+		for _, tr := range ch.Tracks {
+			switch {
+			case c.RepCfg:
+				cc.Reps = append(cc.Reps, rxapp.RepresentationConfig{Name: tr.Name, Language: "en", Bitrate: 12345, Ignore: tr.Ignore})
+			case tr.Ignore:
+				cc.Reps = append(cc.Reps, rxapp.RepresentationConfig{Name: tr.Name, Ignore: true})
 			}
 		}
 		cfg.Channels = append(cfg.Channels, cc)
@@ -144,7 +186,7 @@ func (c Case) urlFor(ch Channel, tr Track, name string) string {
 }
 
 func (c Case) hdr(ch Channel) map[string]string {
-	if !ch.Auth {
+	if !c.needsAuth(ch) {
 		return nil
 	}
 	return map[string]string{"Authorization": "Basic dXNlcjpzZWNyZXQ="} // user:secret
@@ -220,6 +262,22 @@ func runOnce(c Case, storage string, concurrent bool) (*hx.Violation, map[string
 			})
 		}
 	}
+	intruder := func(ch Channel, what, path string, body []byte, hdr map[string]string) {
+		do(func() {
+			if code := r.Upload("PUT", path, body, hdr, true); code != 401 {
+				fail(hx.V("unauthorised-accepted", "channel %s requires credentials: %s -> %d, expected 401", ch.Name, what, code))
+			}
+		})
+	}
+	wrongPswd := map[string]string{"Authorization": "Basic dXNlcjp3cm9uZw=="} // user:wrong
+	for _, ch := range c.Channels {
+		if !ch.Intruders || !c.needsAuth(ch) || (ch.Ignore && !ch.Unlisted) {
+			continue
+		}
+		init, _ := rx.Init("video")
+		intruder(ch, "init of a further track with a wrong password", c.urlFor(ch, Track{Name: "ghost-9", Kind: "video"}, "init"), init, wrongPswd)
+		intruder(ch, "init of track 0 without credentials", c.urlFor(ch, ch.Tracks[0], "init"), init, nil)
+	}
 	if concurrent {
 		close(start)
 		if v := waitAll("init phase"); v != nil {
@@ -239,16 +297,22 @@ func runOnce(c Case, storage string, concurrent bool) (*hx.Violation, map[string
 			return hx.V("channel-created-twice", "channel %s: uploads saw %d different channel objects", ch.Name, len(tokens[ch.Name])+1), nil
 		}
 		var want []string
-		for _, tr := range ch.Tracks {
+		for _, tr := range live(ch) {
 			want = append(want, tr.Name)
 		}
 		sort.Strings(want)
 		// in every sequential order the master track is the first registered video track
 		isVideo := false
-		for _, tr := range ch.Tracks {
+		for _, tr := range live(ch) {
 			if tr.Name == st.MasterTrack && tr.Kind == "video" {
 				isVideo = true
 			}
+		}
+		if len(want) == 0 {
+			if len(st.Tracks) != 0 || st.MasterTrack != "" {
+				return hx.V("ignored-channel-registered", "channel %s is configured to be ignored, yet tracks %v (master %q) are registered", ch.Name, st.Tracks, st.MasterTrack), nil
+			}
+			continue
 		}
 		if !isVideo {
 			return hx.V("master-track-not-video", "channel %s: master track %q although the channel has video tracks (no sequential order of the registrations gives that)", ch.Name, st.MasterTrack), nil
@@ -276,6 +340,18 @@ func runOnce(c Case, storage string, concurrent bool) (*hx.Violation, map[string
 						fail(hx.V("upload-refused", "%s/%s seq %d -> %d", ch.Name, tr.Name, seq, code))
 					}
 				})
+				if ti == 0 && ch.Intruders && c.needsAuth(ch) && !(ch.Ignore && !ch.Unlisted) {
+					// the same number for the same track, other content, without / with wrong credentials
+					forged, err := rx.MediaSeg(tr.Kind, seq, (uint64(seq)+shiftOf(ch))*uint64(d), d, 0xEE, true)
+					if err != nil {
+						return hx.V("harness", "%v", err), nil
+					}
+					hdr := wrongPswd
+					if k%2 == 1 {
+						hdr = nil
+					}
+					intruder(ch, fmt.Sprintf("media %d of track 0 with bad credentials", seq), c.urlFor(ch, tr, fmt.Sprint(seq)), forged, hdr)
+				}
 			}
 		}
 		if concurrent {
@@ -353,8 +429,31 @@ func runOnce(c Case, storage string, concurrent bool) (*hx.Violation, map[string
 		if ch.Shifted {
 			continue
 		}
+		chDir := filepath.Join(storage, ch.Name)
+		if len(live(ch)) == 0 {
+			// an ignored channel keeps nothing
+			n := 0
+			_ = filepath.Walk(chDir, func(_ string, fi os.FileInfo, err error) error {
+				if err == nil && !fi.IsDir() {
+					n++
+				}
+				return nil
+			})
+			if n != 0 {
+				return hx.V("ignored-channel-stored", "channel %s is configured to be ignored, yet %d files were stored under it", ch.Name, n), nil
+			}
+			continue
+		}
+		for _, tr := range append([]Track{{Name: "ghost-9"}}, ch.Tracks...) {
+			if tr.Name != "ghost-9" && (!tr.Ignore || ch.Unlisted) {
+				continue
+			}
+			if _, err := os.Stat(filepath.Join(chDir, tr.Name)); err == nil {
+				return hx.V("ignored-track-stored", "channel %s: a directory exists for track %s, whose uploads were to be dropped (ignored by configuration, or never authorised)", ch.Name, tr.Name), nil
+			}
+		}
 		// every accepted upload stored under its own track with its own bytes
-		for _, tr := range ch.Tracks {
+		for _, tr := range live(ch) {
 			tk := rx.Kinds[tr.Kind]
 			for k := 0; k < c.M; k++ {
 				seq := 50 + k
@@ -372,10 +471,13 @@ func runOnce(c Case, storage string, concurrent bool) (*hx.Violation, map[string
 		if err != nil {
 			return hx.V("final-mpd", "channel %s: %v", ch.Name, err), nil
 		}
-		for _, tr := range ch.Tracks {
+		for _, tr := range live(ch) {
 			if _, ok := nm[tr.Name]; !ok {
 				return hx.V("final-mpd", "channel %s: track %s missing from the final MPD", ch.Name, tr.Name), nil
 			}
+		}
+		if len(nm) != len(live(ch)) {
+			return hx.V("final-mpd-extra-track", "channel %s: the final MPD lists %d representations, %d tracks were accepted", ch.Name, len(nm), len(live(ch))), nil
 		}
 		mpds[ch.Name] = nm
 	}
@@ -432,7 +534,7 @@ func TestC19(t *testing.T) {
 			cls = append(cls, "rep-config")
 		}
 		for _, ch := range c.Channels {
-			if ch.Auth {
+			if c.needsAuth(ch) {
 				cls = append(cls, "auth")
 				break
 			}
@@ -441,6 +543,28 @@ func TestC19(t *testing.T) {
 			if ch.Shifted {
 				cls = append(cls, "shifted-channel")
 				break
+			}
+		}
+		seen := map[string]bool{}
+		for _, ch := range c.Channels {
+			if ch.Ignore && !ch.Unlisted {
+				seen["ignored-channel"] = true
+			} else if len(live(ch)) < len(ch.Tracks) {
+				seen["ignored-track"] = true
+			}
+			if ch.Unlisted {
+				seen["unlisted-channel"] = true
+			}
+			if ch.Intruders && c.needsAuth(ch) && !(ch.Ignore && !ch.Unlisted) {
+				seen["unauthorised-uploads"] = true
+			}
+		}
+		if c.DefaultAuth {
+			seen["default-credentials"] = true
+		}
+		for _, k := range []string{"ignored-channel", "ignored-track", "unlisted-channel", "unauthorised-uploads", "default-credentials"} {
+			if seen[k] {
+				cls = append(cls, k)
 			}
 		}
 		run.NonTrivial(c)
@@ -485,7 +609,7 @@ func TestC19InitStress(t *testing.T) {
 		var wg sync.WaitGroup
 		start := make(chan struct{})
 		codes := make([]int, 2)
-		for k, tr := range []Track{{"video-a", "video"}, {"audio-b", "audio"}} {
+		for k, tr := range []Track{{Name: "video-a", Kind: "video"}, {Name: "audio-b", Kind: "audio"}} {
 			k, tr := k, tr
 			init, _ := rx.Init(tr.Kind)
 			wg.Add(1)
